@@ -18,6 +18,9 @@ pub enum Expr {
     Call(Box<Expr>, Vec<Expr>),
     Bin(Box<Expr>, Box<Expr>),
     Fun(Vec<u32>, Block),
+    Str(u32),
+    Table(Vec<Expr>),
+    Meth(Box<Expr>, u32, Vec<Expr>),
 }
 
 #[derive(Clone, Debug, PartialEq)]
@@ -40,6 +43,9 @@ pub enum Stat {
     If(Expr, Block, Elifs),
     For(u32, Vec<Expr>, Block),
     ForIn(Vec<u32>, Vec<Expr>, Block),
+    Label(u32),
+    Goto(u32),
+    LocalAttr(u32, bool, Vec<Expr>),
 }
 
 #[derive(Clone, Debug, PartialEq)]
@@ -84,6 +90,8 @@ pub struct Printer {
     pub headers: Vec<(u32, u32, u32, u32)>,
     /// (start, end) of the `until` condition of every repeat whose body is empty
     pub empty_untils: Vec<(u32, u32)>,
+    /// (start of an index-expression assignment target, position of the plain-name value assigned to it)
+    pub alias_targets: Vec<(u32, u32)>,
     /// closure nesting depth of every use, parallel to `uses`
     pub use_depth: Vec<u32>,
     /// ordinal (among all name tokens: declarations and uses, in source order) of every use, parallel to `uses`
@@ -123,6 +131,7 @@ impl Printer {
             decls: Vec::new(),
             headers: Vec::new(),
             empty_untils: Vec::new(),
+            alias_targets: Vec::new(),
             use_depth: Vec::new(),
             use_ord: Vec::new(),
             env: Vec::new(),
@@ -179,7 +188,7 @@ impl Printer {
     }
     fn callee(&mut self, e: &Expr) {
         match e {
-            Expr::Name(_) | Expr::Idx(..) | Expr::Call(..) => self.expr(e),
+            Expr::Name(_) | Expr::Idx(..) | Expr::Call(..) | Expr::Meth(..) => self.expr(e),
             _ => {
                 self.s("(");
                 self.expr(e);
@@ -210,6 +219,20 @@ impl Printer {
             Expr::Fun(ps, b) => {
                 self.s("function");
                 self.closure(None, ps, b);
+            }
+            Expr::Str(n) => self.s(&format!("\"s{}\"", n)),
+            Expr::Table(es) => {
+                self.s("{");
+                self.exprs(es);
+                self.s("}");
+            }
+            Expr::Meth(e, m, args) => {
+                self.callee(e);
+                self.s(":");
+                self.s(&name_text(*m));
+                self.s("(");
+                self.exprs(args);
+                self.s(")");
             }
         }
     }
@@ -262,9 +285,24 @@ impl Printer {
                 self.env.extend(ds);
             }
             Stat::Assign(vs, es) => {
-                self.exprs(vs);
+                let mut vpos = Vec::new();
+                for (i, v) in vs.iter().enumerate() {
+                    if i > 0 {
+                        self.s(", ");
+                    }
+                    vpos.push(self.pos());
+                    self.expr(v);
+                }
                 self.s(" = ");
-                self.exprs(es);
+                for (i, e) in es.iter().enumerate() {
+                    if i > 0 {
+                        self.s(", ");
+                    }
+                    if let (Some(Expr::Idx(..)), Expr::Name(_)) = (vs.get(i), e) {
+                        self.alias_targets.push((vpos[i], self.pos()));
+                    }
+                    self.expr(e);
+                }
             }
             Stat::Call(f, args) => {
                 self.callee(f);
@@ -365,6 +403,25 @@ impl Printer {
                 self.env.truncate(mark);
                 self.s("end");
             }
+            Stat::Label(l) => {
+                self.s("::");
+                self.s(&name_text(*l));
+                self.s("::");
+            }
+            Stat::Goto(l) => {
+                self.s("goto ");
+                self.s(&name_text(*l));
+            }
+            Stat::LocalAttr(x, cl, es) => {
+                self.s("local ");
+                let ds = self.names(&[*x], DeclKind::Local);
+                self.s(if *cl { " <close>" } else { " <const>" });
+                if !es.is_empty() {
+                    self.s(" = ");
+                    self.exprs(es);
+                }
+                self.env.extend(ds);
+            }
             Stat::ForIn(ns, es, b) => {
                 self.s("for ");
                 let ds = self.names(ns, DeclKind::ForIn);
@@ -408,6 +465,12 @@ pub fn map_names_expr(e: &Expr, f: &mut dyn FnMut(u32) -> u32) -> Expr {
         Expr::Fun(ps, b) => {
             let ps2: Vec<u32> = ps.iter().map(|p| f(*p)).collect();
             Expr::Fun(ps2, map_names_block(b, f))
+        }
+        Expr::Str(n) => Expr::Str(*n),
+        Expr::Table(es) => Expr::Table(es.iter().map(|a| map_names_expr(a, f)).collect()),
+        Expr::Meth(a, m, args) => {
+            let a2 = map_names_expr(a, f);
+            Expr::Meth(Box::new(a2), *m, args.iter().map(|x| map_names_expr(x, f)).collect())
         }
     }
 }
@@ -461,6 +524,12 @@ pub fn map_names_stat(s: &Stat, f: &mut dyn FnMut(u32) -> u32) -> Stat {
             let ns2: Vec<u32> = ns.iter().map(|n| f(*n)).collect();
             let es2 = map_names_exprs(es, f);
             Stat::ForIn(ns2, es2, map_names_block(b, f))
+        }
+        Stat::Label(l) => Stat::Label(*l),
+        Stat::Goto(l) => Stat::Goto(*l),
+        Stat::LocalAttr(x, cl, es) => {
+            let x2 = f(*x);
+            Stat::LocalAttr(x2, *cl, map_names_exprs(es, f))
         }
     }
 }
@@ -516,7 +585,11 @@ impl<'a> Gen<'a> {
         self.budget -= 1;
         let mut e = Expr::Name(self.name());
         while self.rng.chance(1, 4) {
-            if self.rng.chance(1, 2) {
+            if self.rng.chance(1, 4) {
+                let m = self.name();
+                let args = self.exprs0(depth, 2);
+                e = Expr::Meth(Box::new(e), m, args);
+            } else if self.rng.chance(1, 2) {
                 e = Expr::Idx(Box::new(e), self.name());
             } else {
                 let args = self.exprs0(depth, 2);
@@ -527,9 +600,18 @@ impl<'a> Gen<'a> {
     }
     pub fn expr(&mut self, depth: u32) -> Expr {
         self.budget -= 1;
-        let k = if depth == 0 || self.budget <= 0 { self.rng.below(6) } else { self.rng.below(12) };
+        let k = if depth == 0 || self.budget <= 0 { self.rng.below(7) } else { self.rng.below(15) };
         match k {
             0 => Expr::Num(self.rng.below(30) as u32),
+            6 if depth == 0 || self.budget <= 0 => Expr::Str(self.rng.below(5) as u32),
+            12 => Expr::Str(self.rng.below(5) as u32),
+            13 => Expr::Table(self.exprs0(depth - 1, 3)),
+            14 => {
+                let e = if self.rng.chance(3, 4) { self.prefix(depth - 1) } else { self.expr(depth - 1) };
+                let m = self.name();
+                let args = self.exprs0(depth - 1, 2);
+                Expr::Meth(Box::new(e), m, args)
+            }
             1..=5 => Expr::Name(self.name()),
             6 => Expr::Idx(Box::new(self.expr(depth - 1)), self.name()),
             7 | 8 => {
@@ -563,8 +645,16 @@ impl<'a> Gen<'a> {
     pub fn stat(&mut self, depth: u32) -> Stat {
         self.budget -= 2;
         let d1 = depth.saturating_sub(1);
-        let k = if depth == 0 || self.budget <= 0 { self.rng.below(8) } else { self.rng.below(20) };
+        let k = if depth == 0 || self.budget <= 0 { self.rng.below(8) } else { self.rng.below(23) };
         match k {
+            20 => {
+                let x = self.name();
+                let cl = self.rng.chance(1, 3);
+                let es = self.exprs0(d1, 2);
+                Stat::LocalAttr(x, cl, es)
+            }
+            21 => Stat::Label(self.name()),
+            22 => Stat::Goto(self.name()),
             0..=3 => {
                 let ns = self.names1(3);
                 let es = self.exprs0(d1, 3);
@@ -657,6 +747,9 @@ pub fn coq_expr(e: &Expr) -> String {
         Expr::Call(f, a) => format!("(ECall {} {})", coq_expr(f), coq_exprs(a)),
         Expr::Bin(a, b) => format!("(EBin {} {})", coq_expr(a), coq_expr(b)),
         Expr::Fun(ps, b) => format!("(EFun {} {})", coq_names(ps), coq_block(b)),
+        Expr::Str(n) => format!("(EStr {})", n),
+        Expr::Table(es) => format!("(ETable {})", coq_exprs(es)),
+        Expr::Meth(e, m, a) => format!("(EMeth {} {} {})", coq_expr(e), m, coq_exprs(a)),
     }
 }
 pub fn coq_exprs(es: &[Expr]) -> String {
@@ -689,6 +782,9 @@ pub fn coq_stat(st: &Stat) -> String {
         Stat::If(c, b, els) => format!("(SIf {} {} {})", coq_expr(c), coq_block(b), coq_elifs(els)),
         Stat::For(x, es, b) => format!("(SFor {} {} {})", x, coq_exprs(es), coq_block(b)),
         Stat::ForIn(ns, es, b) => format!("(SForIn {} {} {})", coq_names(ns), coq_exprs(es), coq_block(b)),
+        Stat::Label(l) => format!("(SLabel {})", l),
+        Stat::Goto(l) => format!("(SGoto {})", l),
+        Stat::LocalAttr(x, cl, es) => format!("(SLocalAttr {} {} {})", x, if *cl { "true" } else { "false" }, coq_exprs(es)),
     }
 }
 pub fn coq_elifs(e: &Elifs) -> String {
@@ -717,6 +813,9 @@ pub fn json_expr(e: &Expr) -> Value {
         Expr::Call(f, a) => json!({"call": [json_expr(f), a.iter().map(json_expr).collect::<Vec<_>>()]}),
         Expr::Bin(a, b) => json!({"bin": [json_expr(a), json_expr(b)]}),
         Expr::Fun(ps, b) => json!({"fun": [ps, json_block(b)]}),
+        Expr::Str(n) => json!({"str": n}),
+        Expr::Table(es) => json!({"table": es.iter().map(json_expr).collect::<Vec<_>>()}),
+        Expr::Meth(e, m, a) => json!({"meth": [json_expr(e), m, a.iter().map(json_expr).collect::<Vec<_>>()]}),
     }
 }
 fn json_exprs(es: &[Expr]) -> Value {
@@ -735,6 +834,9 @@ pub fn json_stat(st: &Stat) -> Value {
         Stat::If(c, b, els) => json!({"if": [json_expr(c), json_block(b), json_elifs(els)]}),
         Stat::For(x, es, b) => json!({"for": [x, json_exprs(es), json_block(b)]}),
         Stat::ForIn(ns, es, b) => json!({"forin": [ns, json_exprs(es), json_block(b)]}),
+        Stat::Label(l) => json!({"label": l}),
+        Stat::Goto(l) => json!({"goto": l}),
+        Stat::LocalAttr(x, cl, es) => json!({"localattr": [x, cl, json_exprs(es)]}),
     }
 }
 fn json_elifs(e: &Elifs) -> Value {
@@ -769,6 +871,15 @@ pub fn expr_of_json(v: &Value) -> Expr {
     }
     if let Some(a) = v.get("fun") {
         return Expr::Fun(u32s(&a[0]), block_of_json(&a[1]));
+    }
+    if let Some(n) = v.get("str") {
+        return Expr::Str(n.as_u64().unwrap_or(0) as u32);
+    }
+    if let Some(a) = v.get("table") {
+        return Expr::Table(exprs_of_json(a));
+    }
+    if let Some(a) = v.get("meth") {
+        return Expr::Meth(Box::new(expr_of_json(&a[0])), a[1].as_u64().unwrap_or(0) as u32, exprs_of_json(&a[2]));
     }
     Expr::Num(0)
 }
@@ -812,6 +923,15 @@ pub fn stat_of_json(v: &Value) -> Stat {
     }
     if let Some(a) = v.get("forin") {
         return Stat::ForIn(u32s(&a[0]), exprs_of_json(&a[1]), block_of_json(&a[2]));
+    }
+    if let Some(l) = v.get("label") {
+        return Stat::Label(l.as_u64().unwrap_or(0) as u32);
+    }
+    if let Some(l) = v.get("goto") {
+        return Stat::Goto(l.as_u64().unwrap_or(0) as u32);
+    }
+    if let Some(a) = v.get("localattr") {
+        return Stat::LocalAttr(a[0].as_u64().unwrap_or(0) as u32, a[1].as_bool().unwrap_or(false), exprs_of_json(&a[2]));
     }
     Stat::Do(Block::default())
 }
@@ -1022,7 +1142,23 @@ fn shrink_exprs(es: &[Expr]) -> Vec<Vec<Expr>> {
 fn shrink_expr(e: &Expr) -> Vec<Expr> {
     let mut out = Vec::new();
     match e {
-        Expr::Num(_) | Expr::Name(_) => {}
+        Expr::Num(_) | Expr::Name(_) | Expr::Str(_) => {}
+        Expr::Table(es) => {
+            out.extend(es.iter().cloned());
+            for e2 in shrink_exprs(es) {
+                out.push(Expr::Table(e2));
+            }
+        }
+        Expr::Meth(a, m, args) => {
+            out.push((**a).clone());
+            out.extend(args.iter().cloned());
+            for a2 in shrink_exprs(args) {
+                out.push(Expr::Meth(a.clone(), *m, a2));
+            }
+            for f2 in shrink_expr(a) {
+                out.push(Expr::Meth(Box::new(f2), *m, args.clone()));
+            }
+        }
         Expr::Idx(a, _) => out.push((**a).clone()),
         Expr::Call(f, args) => {
             out.push((**f).clone());
@@ -1089,6 +1225,13 @@ fn shrink_stat(s: &Stat) -> Vec<Stat> {
         Stat::Call(f, args) => {
             for a2 in shrink_exprs(args) {
                 out.push(Stat::Call(f.clone(), a2));
+            }
+        }
+        Stat::Label(_) | Stat::Goto(_) => {}
+        Stat::LocalAttr(x, cl, es) => {
+            out.push(Stat::Local(vec![*x], es.clone()));
+            for es2 in shrink_exprs(es) {
+                out.push(Stat::LocalAttr(*x, *cl, es2));
             }
         }
         Stat::LocalFun(f, ps, b) => with_block(b, &|b2| Stat::LocalFun(*f, ps.clone(), b2), &mut out),
